@@ -343,6 +343,27 @@ theorem substVal_param {n : String} {k : Kind} {v' : Val} (h : substVal args (.p
     · simp only [pure, Except.pure, Except.ok.injEq] at h; exact Or.inl (by rw [h])
     · cases h
 
+/-- inversion of `visit_NamedQubit` -/
+theorem substVal_qubit_inv {n : String} {s i v' : Val} (hs : substVal args (.qubit n s i) = .ok v') :
+    ∃ s' i' nm, substVal args s = .ok s' ∧ isArrayLike s' = true ∧ substVal args i = .ok i' ∧
+      getItem s' (filterFloat i') = .ok v' ∧ v' = .qubit nm s' (filterFloat i') := by
+  simp only [substVal, bind, Except.bind] at hs
+  cases h1 : substVal args s with
+  | error e => rw [h1] at hs; cases hs
+  | ok s' =>
+    rw [h1] at hs; simp only at hs
+    cases ha : isArrayLike s' with
+    | false => rw [ha] at hs; simp at hs
+    | true =>
+      rw [ha] at hs
+      simp only [Bool.not_true, Bool.false_eq_true, if_false] at hs
+      cases h2 : substVal args i with
+      | error e => rw [h2] at hs; cases hs
+      | ok i' =>
+        rw [h2] at hs; simp only at hs
+        obtain ⟨nm, hv⟩ := getItem_ok hs
+        exact ⟨s', i', nm, rfl, ha, rfl, hs, hv⟩
+
 /-- numbers (a parameter or a parameter-free value in a numeric position) -/
 theorem subst_num (hvs : evalArgs ρ bo args = .ok vs) {v v' : Val} {x : Num} (hs : substVal args v = .ok v')
     (hok : (isParam v || noParam v) = true) (he : evalNum ρ (bindOf args vs) v = .ok x) : evalNum ρ bo v' = .ok x := by
@@ -403,27 +424,18 @@ theorem subst_qubit (hvs : evalArgs ρ bo args = .ok vs) {n : String} {s i v' : 
     (hs : substVal args (.qubit n s i) = .ok v') (hok : okVal (.qubit n s i) = true)
     (he : evalQubit ρ (bindOf args vs) (.qubit n s i) = .ok q) : evalQubit ρ bo v' = .ok q := by
   simp only [okVal, Bool.and_eq_true] at hok
-  simp only [substVal, bind, Except.bind] at hs
-  cases h1 : substVal args s with
-  | error e => rw [h1] at hs; cases hs
-  | ok s' =>
-    rw [h1] at hs; simp only at hs
-    cases h2 : substVal args i with
-    | error e => rw [h2] at hs; cases hs
-    | ok i' =>
-      rw [h2] at hs; simp only at hs
-      obtain ⟨nm, rfl⟩ := getItem_ok hs
-      simp only [evalQubit, bind, Except.bind] at he ⊢
-      cases hi : evalInt ρ (bindOf args vs) i with
-      | error e => rw [hi] at he; cases he
-      | ok iv =>
-        rw [hi] at he; simp only at he
-        cases hr : evalReg ρ (bindOf args vs) s with
-        | error e => rw [hr] at he; cases he
-        | ok l =>
-          rw [hr] at he
-          rw [filterFloat_evalNum_int, subst_int hvs h2 hok.2 hi, subst_reg hvs h1 hok.1 hr]
-          exact he
+  obtain ⟨s', i', nm, h1, _, h2, _, rfl⟩ := substVal_qubit_inv hs
+  simp only [evalQubit, bind, Except.bind] at he ⊢
+  cases hi : evalInt ρ (bindOf args vs) i with
+  | error e => rw [hi] at he; cases he
+  | ok iv =>
+    rw [hi] at he; simp only at he
+    cases hr : evalReg ρ (bindOf args vs) s with
+    | error e => rw [hr] at he; cases he
+    | ok l =>
+      rw [hr] at he
+      rw [filterFloat_evalNum_int, subst_int hvs h2 hok.2 hi, subst_reg hvs h1 hok.1 hr]
+      exact he
 
 /-- **substitution commutes with evaluation**, for a gate argument -/
 theorem subst_arg (hvs : evalArgs ρ bo args = .ok vs) {v v' : Val} {a : SArg} (hs : substVal args v = .ok v')
@@ -442,17 +454,8 @@ theorem subst_arg (hvs : evalArgs ρ bo args = .ok vs) {v v' : Val} {a : SArg} (
     | ok q =>
       rw [hq] at he
       have := subst_qubit hvs hs hok hq
-      simp only [substVal, bind, Except.bind] at hs
-      cases h1 : substVal args s with
-      | error e => rw [h1] at hs; cases hs
-      | ok s' =>
-        rw [h1] at hs; simp only at hs
-        cases h2 : substVal args i with
-        | error e => rw [h2] at hs; cases hs
-        | ok i' =>
-          rw [h2] at hs; simp only at hs
-          obtain ⟨nm, rfl⟩ := getItem_ok hs
-          simp only [evalArg, bind, Except.bind, this]; exact he
+      obtain ⟨s', i', nm, _, _, _, _, rfl⟩ := substVal_qubit_inv hs
+      simp only [evalArg, bind, Except.bind, this]; exact he
   | int _ => rw [substVal_noParam (by intros; simp) hok hs]; rw [← he]; exact evalArg_noParam _ _ _ _ hok
   | flt _ => rw [substVal_noParam (by intros; simp) hok hs]; rw [← he]; exact evalArg_noParam _ _ _ _ hok
   | const _ _ => rw [substVal_noParam (by intros; simp) hok hs]; rw [← he]; exact evalArg_noParam _ _ _ _ hok
